@@ -506,6 +506,12 @@ def exec_task(task):
         if cov != ["1", "1"]:
             bad = [(0, "the network wired by ThreadedMailboxProcessor does not satisfy the premises of the shutdown theorem "
                        "C06_noticed_failure_shuts_down (cover_b, init_ok_b = %s)" % cov)] + bad
+    if task.get("compare", True) and not case.get("graph"):
+        dag = lib.run_model("C06", ["netdag " + " ".join(map(str, net)) + " %d" % case["N"]])[0].split()
+        out["dag"] = dag
+        if dag[:1] != ["1"]:
+            bad = [(0, "the network wired by ThreadedMailboxProcessor is not a well-formed plugin DAG in the sense of "
+                       "Model/C06Dag.v (dag_ok_b = %s)" % dag)] + bad
     fam = family_line(case, net) if task.get("compare", True) else None
     out["family"] = None
     if fam is not None:
